@@ -68,7 +68,10 @@ def slice(ctx: fw.Ctx) -> fw.Outcome:
                 inserted.append(g)
         lines = []
         for t, b in secs:
-            lines += [f"[{t}]", "{"] + b + ["}"]
+            # foreign lines between a header and its brace belong to no section: nothing is parsed from them, nothing is reported
+            gap = [rng.choice(FOREIGN)[0] for _ in range(rng.randint(1, 2))] if rng.random() < 0.25 else []
+            gap = [g for g in gap if not g.startswith("[") and g.strip() not in ("{", "}", "{}")]
+            lines += [f"[{t}]"] + gap + ["{"] + b + ["}"]
         items.append((src, base, "\n".join(lines) + "\n", ins, inserted))
     texts = []
     for src, base, gtext, ins, inserted in items:
